@@ -1125,7 +1125,13 @@ where
                 if self.read.remain() < 6 {
                     return perr!(self, EofWhileParsing);
                 } else {
+                    let index = self.read.index();
                     self.read.eat(5);
+                    // the four bytes after `\u` must be hex digits
+                    let hex = self.read.slice_unchecked(index + 1, index + 5);
+                    if !hex.iter().all(u8::is_ascii_hexdigit) {
+                        return perr!(self, InvalidUnicodeCodePoint);
+                    }
                 }
             }
             Some(c) => {
